@@ -41,6 +41,13 @@ try:
             still.append(node)
     head = "recheck: %d not-passed stable tests re-run on their own with the change applied: %d passed, %d still failing" % (
         len(failed), len(failed) - len(still), len(still))
+    if still:
+        # control: the same tests on the clean tree, right now (machine load / fixed start-up sleeps of the app tests)
+        subprocess.run(["git", "-C", wt, "checkout", "-q", "--", "."], check=True)
+        for node in still:
+            cmd = "ip link set lo up; cd %s && /venv/bin/python -m pytest -q -p no:cacheprovider -p no:warnings --timeout=600 '%s'" % (wt, node)
+            p = subprocess.run(["unshare", "-n", "sh", "-c", cmd], capture_output=True, text=True)
+            lines.append("  control on the CLEAN tree at the same time: %s %s" % ("passed" if p.returncode == 0 else "fails as well", node))
 finally:
     subprocess.run(["git", "-C", "/repo", "worktree", "remove", "--force", wt])
 with open(os.path.join(d, "validate.txt"), "w") as f:
